@@ -66,6 +66,11 @@ def generate(tier):
                             continue
                         names = tuple(POOLN[v] for v in r)
                         out.append((kind, exps, rem, names))
+                        if nU <= 2 and kind == "nonsym" and nrem <= 2:
+                            # the same product with spin-labelled (all alpha)
+                            # indices: explicit targets carry the spin
+                            out.append((kind, exps, rem,
+                                        tuple(n + "_a" for n in names)))
     return out
 
 
